@@ -137,6 +137,8 @@ fn main() {
     let n: usize = arg(&args, "--n").and_then(|s| s.parse().ok()).unwrap_or(600);
     let readers: usize = arg(&args, "--readers").and_then(|s| s.parse().ok()).unwrap_or(6);
     let gated: bool = arg(&args, "--gate").map(|s| s != "0").unwrap_or(true);
+    // --lookups 1: readers only look events up by id and never read the bytes behind the reference they get
+    let lookups_only: bool = arg(&args, "--lookups").map(|s| s != "0").unwrap_or(false);
     let maxrec: usize = arg(&args, "--maxrec").and_then(|s| s.parse().ok()).unwrap_or(3000);
     let opath = arg(&args, "--out").expect("--out");
     let tmp = arg(&args, "--tmp").unwrap_or_else(|| if Path::new("/dev/shm").is_dir() { "/dev/shm".into() } else { "/tmp".into() });
@@ -204,7 +206,7 @@ fn main() {
                 let _shared = if gated { Some(gate.read().unwrap()) } else { None };
                 let fin = finished.load(Ordering::SeqCst);
                 let lo = done.load(Ordering::SeqCst) as usize;
-                let qk = it % 6;
+                let qk = if lookups_only { 2 + it % 2 } else { it % 6 };
                 it += 1;
                 let j = lo.saturating_sub(it % 3); // an event at / just below the frontier
                 let (klo, khi, note): (i64, i64, String) = match qk {
@@ -227,7 +229,7 @@ fn main() {
                         let r = catch_unwind(AssertUnwindSafe(|| store.get_event_by_id(Id::from_bytes(ev_id(jj)))));
                         match r {
                             Ok(Ok(Some(e))) => {
-                                if e.as_bytes() == events[jj].as_bytes() { (jj as i64 + 1, n as i64, "found".into()) } else { (-1, -1, "found with other bytes".into()) }
+                                if lookups_only || e.as_bytes() == events[jj].as_bytes() { (jj as i64 + 1, n as i64, "found".into()) } else { (-1, -1, "found with other bytes".into()) }
                             }
                             Ok(Ok(None)) => (0, jj as i64, "absent".into()),
                             Ok(Err(e)) => (-1, -1, format!("err:{:?}", e.inner)),
